@@ -182,6 +182,16 @@ func checkPrecond(r *Report, a *Analysis, sc *Scope, fns []*ssa.Function, rule s
 						checkCBCIV(r, fc, b, in, c, rule)
 					case "(crypto/cipher.AEAD).Open", "(crypto/cipher.AEAD).Seal":
 						checkAEADNonce(r, fc, b, in, c, rule)
+					case "(*crypto/rsa.PrivateKey).Precompute":
+						// indexes Primes[0] and Primes[1]: a key given only as (N, E, D) - legal, and decrypts - panics here
+						cons := fmt.Sprintf("%s: %s on the caller's key", p.FnName(fn), name)
+						okP := false
+						for _, nm := range B.Support(fc.Cond(b)) {
+							if ai := a.Atoms[nm]; ai != nil && (ai.Kind == "lt" || ai.Kind == "empty") && strings.Contains(nm, ".Primes") {
+								okP = true
+							}
+						}
+						r.Check(okP, rule, cons, p.InstrPos(in), "under a test of len(key.Primes)", "Precompute indexes the key's prime factors without a guard on their number: a private key that carries no CRT factors panics (index out of range) instead of decrypting or yielding an error")
 					}
 				case *ssa.Lookup:
 					// map lookup without comma-ok whose zero value (interface/pointer) is then used as receiver
